@@ -42,15 +42,14 @@ func (*c11) Assumptions() []string {
 }
 
 type c11Variant struct {
-	name   string
-	src    string
-	mods   map[string]string
-	result string // "" = globals are P's own variables; otherwise name of the variable holding the map of P's variables
+	name      string
+	src       string
+	mods      map[string]string
+	result    string // "" = globals are P's own variables; otherwise name of the variable holding the map of P's variables
 	lineShift int
-	file   string // file in which P's lines live
-	rename map[string]string // new name -> old name
+	file      string            // file in which P's lines live
+	rename    map[string]string // new name -> old name
 }
-
 
 // wrapExprs wraps up to n expression nodes of src in immediately invoked function literals.
 func c11WrapExprs(src string, rng *rand.Rand, n int) (string, int) {
